@@ -271,6 +271,11 @@ func (g *G) genDidMsg() (sdk.Msg, string) {
 		} else if len(active) > 0 && g.chance("create-on-existing", 12) {
 			did = pick(g, "active", active)
 		}
+		if g.chance("did-with-extra-segment", g.bias("did-segment", 4)) {
+			// spellings next to the grammar: an extra colon-separated segment before the
+			// identifier string (network ids are common in other DID methods)
+			did = "did:panacea:" + pick(g, "segment", []string{"mainnet", "testnet", "1", "panacea"}) + ":" + strings.TrimPrefix(did, "did:panacea:")
+		}
 		auth := g.someAuthSet()
 		if g.chance("own-key-in-auth", 80) {
 			has := false
